@@ -765,12 +765,15 @@ int fb_gen_common_c_builder_header(fb_output_t *out)
         "static inline int N ## _start(NS ## builder_t *B)\\\n"
         "{ return flatcc_builder_start_union_vector(B); }\\\n"
         "static inline int N ## _end(NS ## builder_t *B)\\\n"
-        "{ return N ## _add(B, flatcc_builder_end_union_vector(B)); }\\\n"
+        "{ TN ## _union_vec_ref_t _uvref = flatcc_builder_end_union_vector(B);\\\n"
+        "  return (_uvref.type && _uvref.value) ? N ## _add(B, _uvref) : -1; }\\\n"
         "static inline int N ## _create(NS ## builder_t *B, const TN ## _union_ref_t *data, size_t len)\\\n"
-        "{ return N ## _add(B, flatcc_builder_create_union_vector(B, data, len)); }\\\n"
+        "{ TN ## _union_vec_ref_t _uvref = flatcc_builder_create_union_vector(B, data, len);\\\n"
+        "  return (_uvref.type && _uvref.value) ? N ## _add(B, _uvref) : -1; }\\\n"
         "__%sbuild_union_vector_ops(NS, N, N, TN)\\\n"
         "static inline int N ## _clone(NS ## builder_t *B, TN ## _union_vec_t vec)\\\n"
-        "{ return N ## _add(B, TN ## _vec_clone(B, vec)); }\\\n"
+        "{ TN ## _union_vec_ref_t _uvref = TN ## _vec_clone(B, vec);\\\n"
+        "  return (_uvref.type && _uvref.value) ? N ## _add(B, _uvref) : -1; }\\\n"
         "static inline int N ## _pick(NS ## builder_t *B, TT ## _table_t t)\\\n"
         "{ TN ## _union_vec_t _p = N ## _union(t); return _p.type ? N ## _clone(B, _p) : 0; }\n"
         "\n",
